@@ -443,6 +443,74 @@ def r131_reader(ctx, repo, model):
            key=f"{EVT}::H5Events._features::offers every stored dataset")
 
 
+FDEF = "dclab/rtdc_dataset/fmt_hdf5/feat_defect.py"
+
+
+def r131_defect(ctx, repo, model):
+    """the reader hides the stored 'time' feature of Shape-In files only up
+    to the dclab release whose CHANGELOG entry introduces that rule (files
+    re-written by that release or later carry a trustworthy feature that the
+    checker must see): is_defective_feature_time interpreted on a table of
+    software versions"""
+    f = repo.func(FDEF, "is_defective_feature_time", missing_ok=True)
+    if f is None or not repo.exists("CHANGELOG"):
+        return
+    # boundary release from the CHANGELOG
+    cur, boundary = None, None
+    for line in repo.src("CHANGELOG").splitlines():
+        if re.match(r"^\d+\.\d+\.\d+\S*\s*$", line):
+            cur = line.strip()
+        elif cur and "time" in line.lower() and "defective" in line.lower():
+            boundary = cur
+    if boundary is None:
+        return      # the law is not documented: not decided
+
+    def vt(v):
+        return tuple(int(x) for x in re.findall(r"\d+", v)[:3])
+    b = vt(boundary)
+    older = f"{b[0]}.{b[1]}.{b[2] - 1}" if b[2] else None
+    newer = f"{b[0]}.{b[1]}.{b[2] + 1}"
+    interp = model.interp
+    g = {"parse_version": vt}
+    module_level(repo.tree(FDEF), g, interp, assigns=False)
+
+    def run(version):
+        file = object()
+        h5 = H5Group(file)
+        ev = H5Group(file, "/events")
+        h5["events"] = ev
+        ev["frame"] = H5Dataset((N,), file)
+        t = H5Dataset((N,), file)
+        t.dtype = Namespace("dtype", char="d")
+        ev["time"] = t
+        h5["events/time"] = t
+        h5.attrs.update({"imaging:frame rate": 2000.0,
+                         "setup:software version":
+                         f"ShapeIn 2.0.5 | dclab {version}"})
+        interp.steps = 0
+        return bool(Func(f, g, interp)(h5))
+    bad = []
+    for version, want in ((older, True), (boundary, False), (newer, False)):
+        if version is None:
+            continue
+        try:
+            got = run(version)
+        except ModelRaise as e:
+            raise AnalysisError(f"is_defective_feature_time raises {e} on "
+                                "the model file")
+        if got != want:
+            bad.append(f"a float64 'time' re-written by dclab {version} is "
+                       + ("hidden" if got else "offered"))
+    ctx.ob("R13.1", not bad,
+           f"the stored 'time' of Shape-In files is hidden below dclab "
+           f"{boundary} only (the release whose CHANGELOG entry registers "
+           "it as defective)" if not bad else
+           "is_defective_feature_time: " + "; ".join(bad) + f" although "
+           f"the CHANGELOG introduces the rule with {boundary}: the checker "
+           "does not get to see a stored feature", node=f,
+           key=f"{FDEF}::is_defective_feature_time::version boundary")
+
+
 def r131(ctx, repo, model, pattern, sets):
     cls = model.cls
     s_nofl, s_fl = sets
@@ -541,6 +609,7 @@ def r131(ctx, repo, model, pattern, sets):
            m, has("'deform'"), "metadata event count N+1")
     clean("feature length", "check_feature_size")
     r131_reader(ctx, repo, model)
+    r131_defect(ctx, repo, model)
 
     # 2 image size vs ROI
     for roi, val in (("roi size x", W + 1), ("roi size y", H - 1)):
@@ -592,6 +661,9 @@ def r131(ctx, repo, model, pattern, sets):
     for nm, want in (("ml_score_abc", True), ("ml_score_0z9", True),
                      ("ml_score_abcd", False), ("ml_score_ab", False),
                      ("ml_score_ABC", False), ("ml_score_a-c", False),
+                     ("ml_score_-bc", False), ("ml_score_ab-", False),
+                     ("ml_score_ab_", False), ("ml_score_abC", False),
+                     ("ml_score_Abc", False), ("ml_score_ab.", False),
                      ("xml_score_abc", False), ("ml_score_abc_raw", False),
                      ("ml_score_abc\n", False), ("deform", True),
                      ("deformx", False)):
@@ -831,6 +903,58 @@ def r131(ctx, repo, model, pattern, sets):
     if len(pairs) < 4:
         raise AnalysisError("check_metadata_bad_greater_zero: key list not "
                             "recognised")
+    for sec, key in pairs:
+        known = key in model.cfgkeys.get(sec, [])
+        ctx.ob("R13.1", known,
+               f"[{sec}] '{key}' consulted by "
+               "check_metadata_bad_greater_zero is a defined key" if known
+               else f"check_metadata_bad_greater_zero consults [{sec}] "
+               f"'{key}', which the metadata tables do not define in that "
+               "section: the lookup yields None and a non-positive value "
+               "is never reported", node=gz,
+               key=f"{CHK}::check_metadata_bad_greater_zero::defined "
+               f"[{sec}] {key}")
+    # every constant [section] key any check reads exists in the tables
+    consulted = {}
+    for name, f in model.methods.items():
+        for n in walk(f):
+            sec = key = None
+            if isinstance(n, ast.Subscript) and isinstance(
+                    n.value, ast.Subscript) and txt(
+                    n.value.value).endswith(".config"):
+                sec, key = const_str(n.value.slice), const_str(n.slice)
+            elif isinstance(n, ast.Compare) and len(n.ops) == 1 \
+                    and isinstance(n.ops[0], (ast.In, ast.NotIn)) \
+                    and isinstance(n.comparators[0], ast.Subscript) \
+                    and txt(n.comparators[0].value).endswith(".config"):
+                sec = const_str(n.comparators[0].slice)
+                key = const_str(n.left)
+            elif isinstance(n, ast.Call) and last_attr(n) == "get" \
+                    and n.args and isinstance(n.func.value, ast.Subscript) \
+                    and txt(n.func.value.value).endswith(".config"):
+                sec = const_str(n.func.value.slice)
+                key = const_str(n.args[0])
+            if sec is not None and key is not None:
+                consulted.setdefault((sec, key), (name, n))
+    for (sec, key), (name, n) in sorted(consulted.items()):
+        known = key in model.cfgkeys.get(sec, [])
+        ctx.ob("R13.1", known, f"{name} reads the defined key [{sec}] "
+               f"'{key}'" if known else
+               f"{name} reads [{sec}] '{key}', which the metadata tables do "
+               "not define: the test can never see a value", node=n,
+               key=f"{CHK}::IntegrityChecker.{name}::defined [{sec}] {key}",
+               nontrivial=False)
+    # the four physical set-up quantities of the statement
+    for sec, key in (("imaging", "pixel size"), ("imaging", "frame rate"),
+                     ("setup", "channel width"), ("setup", "flow rate")):
+        if (sec, key) in pairs:
+            continue
+
+        def m(ds, sec=sec, key=key):
+            ds.config[sec][key] = 0.0
+        seeded("non-positive value", "check_metadata_bad_greater_zero",
+               f"[{sec}] {key} = 0.0", m, key_is(sec, key),
+               f"[{sec}] '{key}' = 0.0")
     for sec, key in pairs:
         for val in (0, 0.0, -1.5):
             def m(ds, sec=sec, key=key, val=val):
@@ -1165,26 +1289,10 @@ def r132(ctx, repo, model, pattern, chk):
                "the three levels check_dataset returns", node=cd,
                key=f"{CHK}::check_dataset::unknown level {lv}")
 
-    # CLI
+    # CLI: verify_dataset interpreted as a whole (sys.exit raises
+    # SystemExit as the real one; an exception that escapes the function
+    # ends the process with code 1)
     vd = repo.func(CLI, "verify_dataset")
-    tries = [n for n in walk(vd) if isinstance(n, ast.Try)]
-    if len(tries) != 1:
-        raise AnalysisError("verify_dataset: try block lost")
-    tr = tries[0]
-    unpack = [n for n in walk(tr) if isinstance(n, ast.Assign)
-              and isinstance(n.targets[0], ast.Tuple)
-              and isinstance(n.value, ast.Call)
-              and last_attr(n.value) == "check_dataset"]
-    if len(unpack) != 1 or len(unpack[0].targets[0].elts) != 3:
-        raise AnalysisError("verify_dataset: check_dataset call lost")
-    vname, aname, iname = [txt(e) for e in unpack[0].targets[0].elts]
-    exits = [c for c in find_calls(vd, attr="exit")]
-    fin = [c for c in exits if any(c is x for s in tr.finalbody
-                                   for x in walk(s))]
-    if len(fin) != 1 or not isinstance(fin[0].args[0], ast.Name):
-        raise AnalysisError("verify_dataset: final sys.exit(status) lost")
-    status = fin[0].args[0].id
-    # documented table
     parser = repo.func(CLI, "verify_dataset_parser")
     descr = None
     for n in walk(parser):
@@ -1208,49 +1316,77 @@ def r132(ctx, repo, model, pattern, chk):
             doc["error"] = int(code)
     if len(doc) != 5 or len(set(doc.values())) != 5:
         raise AnalysisError(f"exit codes not documented as expected: {doc}")
+
+    def run_cli(result=None, exc=None, exists=True):
+        """-> process exit code"""
+        def sys_exit(code=0):
+            raise ModelRaise("SystemExit", "exit", args=(code,))
+
+        def check_dataset_(path):
+            if exc is not None:
+                raise ModelRaise(exc[0], "model", args=exc[1])
+            return result
+        check_dataset_.model_callable = True
+        quiet = lambda *a, **k: None   # noqa: E731
+        g = {"sys": Namespace("sys", exit=sys_exit),
+             "check_dataset": check_dataset_,
+             "common": Namespace("common", print_info=quiet,
+                                 print_alert=quiet, print_violation=quiet),
+             "fmt_tdms": Namespace("fmt_tdms"),
+             "pathlib": Namespace("pathlib", Path=lambda p: p)}
+        module_level(repo.tree(CLI), g, model.interp, assigns=False)
+        path = Namespace("path", exists=lambda: exists,
+                         resolve=lambda: path)
+        model.interp.steps = 0
+        try:
+            Func(vd, g, model.interp)(path)
+        except ModelRaise as e:
+            if e.name == "SystemExit":
+                c = e.model_args[0] if e.model_args else 0
+                return 0 if c is None else c
+            return f"1 (uncaught {e.name})"
+        return "none (sys.exit not reached)"
     for (al, vi) in ((False, False), (True, False), (False, True),
                      (True, True)):
-        loc = {aname: ["a"] if al else [], vname: ["v"] if vi else [],
-               iname: ["i"], status: doc["error"]}
-        g = {"common": Namespace(
-            "common", print_info=lambda *a: None,
-            print_alert=lambda *a: None, print_violation=lambda *a: None)}
-        try:
-            model.interp.steps = 0
-            model.interp.block(tr.orelse, loc, g, None)
-            got = loc.get(status)
-        except ModelRaise as e:
-            got = f"raises {e.name}"
+        got = run_cli(result=(["v"] if vi else [], ["a"] if al else [],
+                              ["i"]))
         ok = got == doc[(al, vi)]
         ctx.ob("R13.2", ok,
                f"alerts={al}, violations={vi} -> exit code {got}" if ok
                else f"alerts={al}, violations={vi} -> exit code {got}, "
-               f"documented {doc[(al, vi)]}", node=tr,
+               f"documented {doc[(al, vi)]}", node=vd,
                key=f"{CLI}::verify_dataset::exit code alerts={al} "
                f"violations={vi}")
-    # exceptions keep the error code
-    init = [n for n in vd.body if isinstance(n, ast.Assign) and txt(
-        n.targets[0]) == status]
-    before = bool(init) and init[0].lineno < tr.lineno and isinstance(
-        init[0].value, ast.Constant) and init[0].value.value == doc["error"]
-    handlers_assign = [n for h in tr.handlers for n in walk(h)
-                       if isinstance(n, (ast.Assign, ast.AugAssign))
-                       and status in txt(n)]
-    body_assign = [n for s in tr.body for n in walk(s) if isinstance(
-        n, ast.Assign) and txt(n.targets[0]) == status]
-    catch_all = any(h.type is None or txt(h.type) in (
-        "BaseException", "Exception") for h in tr.handlers)
-    ok = before and not handlers_assign and not body_assign and catch_all
-    ctx.ob("R13.2", ok,
-           f"exceptions leave the exit code at {doc['error']} (other error)"
-           if ok else "the exit code after an exception is not the "
-           f"documented {doc['error']}", node=tr,
-           key=f"{CLI}::verify_dataset::exit code on exception")
-    miss = [c for c in exits if c not in fin]
-    ok = all(isinstance(c.args[0], ast.Constant) and c.args[0].value ==
-             doc["error"] for c in miss)
+    # exceptions keep the error code, whatever their arguments are
+    hnames = []
+    for t in [n for n in walk(vd) if isinstance(n, ast.Try)]:
+        for h in t.handlers:
+            if h.type is not None:
+                for e in (h.type.elts if isinstance(h.type, ast.Tuple)
+                          else [h.type]):
+                    nm = txt(e).split(".")[-1]
+                    if nm not in ("BaseException", "Exception") \
+                            and nm not in hnames:
+                        hnames.append(nm)
+    cases = [(nm, ("message",)) for nm in hnames] + [
+        ("ValueError", ("bad value",)), ("KeyError", (5,)),
+        ("OSError", (2, "No such file or directory")),
+        ("RuntimeError", ()), ("OldFormatNotSupportedError", (b"bytes",))]
+    bad = []
+    for nm, args in cases:
+        got = run_cli(exc=(nm, args))
+        if got != doc["error"]:
+            bad.append(f"{nm}{args!r} -> exit code {got}")
+    ctx.ob("R13.2", not bad,
+           f"all {len(cases)} modelled exceptions of check_dataset (string "
+           f"and non-string arguments) exit with {doc['error']} (other "
+           "error)" if not bad else "the exit code after an exception is "
+           f"not the documented {doc['error']}: " + "; ".join(bad[:3]),
+           node=vd, key=f"{CLI}::verify_dataset::exit code on exception")
+    got = run_cli(exists=False)
+    ok = got == doc["error"]
     ctx.ob("R13.2", ok, "a missing file exits with the error code" if ok
-           else "early exit with an undocumented code", node=vd,
+           else f"a missing file exits with {got}", node=vd,
            key=f"{CLI}::verify_dataset::early exit code", nontrivial=False)
 
 
@@ -2164,4 +2300,42 @@ TWINS = list(TWINS) + [
      ('            features = sorted(self.h5file["events"].keys())',
       '            features = sorted(\n'
       '                [ft for ft in self.h5file["events"].keys()])')),
+]
+
+# round-5 seeded changes (value-level slips, error paths)
+MUTANTS = list(MUTANTS) + [
+    ("pixel size looked up in the wrong section", CHK,
+     ('            ["imaging", "pixel size"],\n', '            ["setup", "pixel size"],\n'),
+     "R13.1"),
+    ("a consulted key is misspelled", CHK,
+     ('        if "laser count" in self.ds.config["fluorescence"]:',
+      '        if "lasers count" in self.ds.config["fluorescence"]:'),
+     "R13.1"),
+    ("exit status returned after the try instead of in finally", CLI,
+     ("    finally:\n        # return sys.exit for testing (monkeypatched)\n"
+      "        return sys.exit(exit_status)",
+      "    # return sys.exit for testing (monkeypatched)\n"
+      "    return sys.exit(exit_status)"), "R13.2"),
+    ("time hidden up to and including the fixing release", FDEF,
+     ('        if parse_version(dclab_version) < parse_version("0.47.6"):',
+      '        if parse_version(dclab_version) <= parse_version("0.47.6"):'),
+     "R13.1"),
+]
+TWINS = list(TWINS) + [
+    ("generic handler re-raises (finally still decides the exit code)", CLI,
+     ("        common.print_violation(f\"{e.__class__.__name__}: "
+      "{', '.join(e.args)}\")",
+      "        common.print_violation(f\"{e.__class__.__name__}: "
+      "{', '.join(e.args)}\")\n        raise")),
+    ("generic handler formats the arguments with str()", CLI,
+     ("{', '.join(e.args)}", "{', '.join(str(a) for a in e.args)}")),
+    ("greater-zero keys sorted by section then key", CHK,
+     ('            ["imaging", "frame rate"],\n'
+      '            ["imaging", "pixel size"],\n'
+      '            ["setup", "channel width"],\n'
+      '            ["setup", "flow rate"],\n',
+      '            ["setup", "flow rate"],\n'
+      '            ["setup", "channel width"],\n'
+      '            ["imaging", "pixel size"],\n'
+      '            ["imaging", "frame rate"],\n')),
 ]
